@@ -194,7 +194,7 @@ package s2
 //@   ensures [contains] vcLo(result) <= (uint64(face)<<61 + pos | 1) && (uint64(face)<<61 + pos | 1) <= vcHi(result)
 
 //@ func (ci CellID) MaxTile(limit CellID) CellID
-//@   requires vcValid(ci) && (vcValid(limit) || vcIsEnd(limit))
+//@   requires (vcValid(ci) || vcIsEnd(ci)) && (vcValid(limit) || vcIsEnd(limit))
 //@   ensures [limit] vcLo(ci) >= vcLo(limit) ==> result == limit
 //@   ensures [tile] vcLo(ci) < vcLo(limit) ==> vcValid(result) && vcLo(result) == vcLo(ci) && vcHi(result) < vcLo(limit)
 //@   ensures [maximal] vcLo(ci) < vcLo(limit) && !result.isFace() ==> vcLo(result.immediateParent()) != vcLo(ci) || vcHi(result.immediateParent()) >= vcLo(limit)
